@@ -88,7 +88,7 @@ namespace Dune {
 
     // if buffer was to small allocate a larger buffer using
     // the predicted size hint (+1 for the terminating 0-byte).
-    int dynamicBufferSize = r+1;
+    std::size_t dynamicBufferSize = static_cast<std::size_t>(r)+1;
 
     std::unique_ptr<char[]> dynamicBuffer;
     try {
@@ -104,7 +104,7 @@ namespace Dune {
       DUNE_THROW(Dune::Exception,"Could not convert format string using given arguments.");
 
     // the new buffer should always be large enough
-    assert(r<dynamicBufferSize);
+    assert(static_cast<std::size_t>(r)<dynamicBufferSize);
 
     return std::string(dynamicBuffer.get());
   }
